@@ -7,7 +7,7 @@ stream delimitation (import-free; linked into `drv_c03`).
   lzw.py        LZWDecoder.readbits/feed/run, lzwdecode
   utils.py      apply_png_predictor (as repaired by the two `fix:` commits), apply_tiff_predictor,
                 paeth_predictor (translated: `Gen.Filters.paeth_predictor`)
-  pdftypes.py   PDFStream.get_filters / decode (filter names translated: `Gen.Filters.LITERALS_*`)
+  pdftypes.py   PDFStream.get_filters / decode / _decode (translated: `Gen.Filters.LITERALS_*`, `DECODE_ERRORS`)
   pdfparser.py  PDFParser.do_keyword, `stream` branch (non-fallback), psparser.nextline
 
 Errors are Python exception classes (`Err`); every loop is structural or fuelled with a fuel
@@ -413,9 +413,30 @@ def decodeChain (inflate : Bytes → Bytes) : List (Bytes × Option Parms) → B
     | .ok d' => decodeChain inflate fs d'
     | .error e => .error e
 
-/-- `PDFStream.decode` without encryption. -/
-def streamDecode (inflate : Bytes → Bytes) (f : FilterVal) (p : ParmsVal) (raw : Bytes) : Except Err Bytes :=
+/-- The Python class of an error that is not a `PDFException`, with its relevant base classes
+(`binascii.Error` is a `ValueError`); `[]` for `PDFException` subclasses. -/
+def Err.pyClasses : Err → List String
+  | .binascii => ["binascii.Error", "ValueError"]
+  | .valueError => ["ValueError"]
+  | .indexError => ["IndexError", "LookupError"]
+  | .runtimeError => ["RuntimeError"]
+  | .stopIteration => ["StopIteration"]
+  | _ => []
+
+/-- `except _DECODE_ERRORS` in `PDFStream.decode` (after `except PDFException: raise`): does the
+handler catch this error?  `DECODE_ERRORS` is regenerated from pdftypes.py. -/
+def Err.isDecodeError (e : Err) : Bool := e.pyClasses.any (fun c => DECODE_ERRORS.contains c)
+
+/-- `PDFStream._decode` without encryption. -/
+def streamDecodeRaw (inflate : Bytes → Bytes) (f : FilterVal) (p : ParmsVal) (raw : Bytes) : Except Err Bytes :=
   decodeChain inflate (getFilters f p) raw
+
+/-- `PDFStream.decode` (non-strict): errors of the decoders/predictors that are not
+`PDFException`s are logged and the stream decodes to the empty string. -/
+def streamDecode (inflate : Bytes → Bytes) (f : FilterVal) (p : ParmsVal) (raw : Bytes) : Except Err Bytes :=
+  match streamDecodeRaw inflate f p raw with
+  | .ok d => .ok d
+  | .error e => if e.isDecodeError then .ok [] else .error e
 
 /-! ## Stream delimitation (`PDFParser.do_keyword`, `stream` branch, non-fallback) -/
 
